@@ -27,6 +27,16 @@ pub fn scenarios() -> Vec<Scenario> {
 }
 
 pub fn gen(rng: &mut Rng, tier: Tier, idx: u64) -> Case {
+    if tier == Tier::Thorough && idx < 4 && !gen::tiny() {
+        // the largest frames the 4-byte remaining length allows (thorough only: ~1 GiB peak)
+        let fam = if idx % 2 == 0 { Fam::V311 } else { Fam::V5 };
+        let mut c = Case::new("C01", "c01-roundtrip", fam, Front::P);
+        let over = if fam.is_v5() { 4 } else { 3 };
+        let n = 268_435_455 - over - if idx >= 2 { 1 } else { 0 };
+        c.packets = vec![Ast::Publish { dup: false, qos: 0, retain: false, topic: Bs::s("t"), pid: None, props: vec![], payload: Bs(vec![0u8; n]) }];
+        c.read_tail = 1 << 20;
+        return c;
+    }
     let mut sw = gen::swarm(rng, tier == Tier::Thorough);
     let all = gen::all_types(sw.fam);
     if idx % 16 == 0 {
@@ -35,6 +45,7 @@ pub fn gen(rng: &mut Rng, tier: Tier, idx: u64) -> Case {
     let mut c = Case::new("C01", "c01-roundtrip", sw.fam, Front::P);
     let mut a = gen::gen_packet(rng, &sw);
     maybe_retarget(rng, &sw, &mut a, if tier == Tier::Thorough { 64 } else { 200 });
+    gen::maybe_retarget_props(rng, sw.fam, &mut a, 40);
     let len = crate::refcodec::ref_body_len(&a, sw.fam) + 5;
     c.packets = vec![a];
     let pp = *rng.pick(&[0u64, 0, 100, 400]);
